@@ -124,6 +124,7 @@ def main(tier):
             vd.violation(key, '%s after op %s of history %s (mode=%d buf=%d): %s' % (t, op, hists[hi], x['mode'], x['buf'], json.dumps(brief)[:900]),
                          {'ops': hists[hi], 'mode': x['mode'], 'opts': x['opts'], 'after_op': op, 'snapshot': brief})
     ev.cov['evaluations'] = len(recs)
+    ev.cov['executions_cut_where_the_history_would_use_an_object_the_library_reported_deleted'] = sum(1 for ex in execs if ex['end'] and ex['end'].get('truncated'))
     ev.cov['distinct_nontrivial'] = nontriv
     ev.cov['traces_validated_against_impl'] = len(complete)
     ev.cov['executions_not_completed'] = len(execs) - len(complete)
